@@ -26,12 +26,44 @@ def sample_messages(rng: random.Random, n: int):
     return out
 
 
+def history_messages(rng: random.Random):
+    """a stream in which packets repeat: [(message, sequence counter to force or None, frames to keep or None)]
+    identical single frames sent twice, a fast-packet message sent again under the same sequence counter with
+    the same first frame but other content in the later frames, a stray repeat of its last frame, the first
+    version once more; whatever a decoder makes of that is what the client has to deliver"""
+    from nmea2000.decoder import NMEA2000Decoder
+    from . import gen_db
+    dec = NMEA2000Decoder()
+    d = next(x for x in gen_db.build()["defs"] if x["id"] == "gnssPositionData")
+    idx = {f["id"]: i for i, f in enumerate(d["fields"])}
+
+    def engine(alt: int, hdop: int):
+        # 43 bytes = 7 frames; sid, date, time and the first byte of the latitude fill the first frame
+        payload = corpus.build_payload(d, {idx["sid"]: 7, idx["date"]: 19000, idx["time"]: 360000000,
+                                           idx["latitude"]: 0x0102030405060708, idx["longitude"]: 0x0203040506070809,
+                                           idx["altitude"]: alt, idx["hdop"]: hdop, idx["pdop"]: 0x0123,
+                                           idx["numberOfSvs"]: 9, idx["referenceStations"]: 0})
+        return dec.decode_basic_string(corpus.basic_string(129029, payload, src=40, dst=255, prio=3), already_combined=True)
+    a = sample_messages(rng, 3)
+    e1, e2 = engine(0x0000000011121314, 0x0111), engine(0x0000000021222324, 0x0222)
+    assert e1 is not None and e2 is not None
+    return [(a[0], None, None), (e1, 3, None), (a[1], None, None), (a[0], None, None), (e2, 3, None), (e2, 3, [-1]),
+            (a[2], None, None), (e1, 3, None), (a[2], None, None), (e1, 5, [0, 1]), (e2, 5, None)]
+
+
 def wire_packets(kind: str, msgs, rng: random.Random, with_bad: bool = True):
-    """list of (bytes, label) for the client kind: valid packets of msgs interleaved with undecodable ones"""
+    """list of (bytes, label) for the client kind: valid packets of msgs interleaved with undecodable ones;
+    an item (message, q, keep) forces the encoder's sequence counter to q and keeps only the listed frames"""
     from nmea2000.encoder import NMEA2000Encoder
     enc = NMEA2000Encoder()
     pk = []
     for i, m in enumerate(msgs):
+        keep = None
+        if isinstance(m, tuple):
+            m, q, keep = m
+            if q is not None:
+                enc.sequence_counter = q
+        n0 = len(pk)
         if kind == "ebyte":
             for p in enc.encode_ebyte(m):
                 pk.append((p, "valid"))
@@ -61,6 +93,10 @@ def wire_packets(kind: str, msgs, rng: random.Random, with_bad: bool = True):
                 pk.append((b"$GPGGA,not,n2k\r\n", "malformed"))
                 pk.append((b"A000001.000 09FF7 1F513\r\n", "malformed"))
                 pk.append((b"\n", "empty"))
+        if keep is not None and kind != "actisense":      # (Actisense carries whole messages: nothing to pick)
+            valid = [x for x in pk[n0:] if x[1] == "valid"]
+            rest = [x for x in pk[n0:] if x[1] != "valid"]
+            pk[n0:] = [valid[j] for j in keep] + rest
     return pk
 
 
